@@ -179,7 +179,7 @@ def execute(kind, prefix, k, word, mode="dual"):
             limit = loop._ns + round(CONSUME_BUDGET * NS)
             while not fut.done():
                 nt = loop.next_timer_ns()
-                if not loop._ready and not loop._io and not (w.server is not None and w.server.pending) \
+                if not loop._ready and not loop._io and not (w.server is not None and w.server.busy()) \
                         and (nt is None or nt > limit):
                     break
                 loop.step()
